@@ -51,7 +51,7 @@ pub static C16: CheckSpec = CheckSpec {
     runs_thorough: 6_000_000,
     cap_quick_s: 60,
     cap_thorough_s: 900,
-    rule: "one run = one generated history (20..320 operations: insert_or_update, record updates that may move a node to another /24, status updates, removals, Entry API, iteration, clock advances around the 60 s pending timeout) on the routing table of a Discv5 built with ip_limit (real IpTableFilter/IpBucketFilter), over 30..150 real signed records drawn from 1-3 /24 subnets plus address-less and IPv6-only fillers, with an optional fill burst so that full buckets with pending candidates occur; per-bucket and per-table /24 counts are checked after every operation; distinct = distinct hash of the operation/result log",
+    rule: "one run = one generated history (20..320 operations: insert_or_update, record updates that may move a node to another /24, status updates, removals, Entry API, iteration, clock advances around the 60 s pending timeout) on the routing table of a Discv5 built with ip_limit (real IpTableFilter/IpBucketFilter), over 30..150 real signed records drawn from 1-3 /24 subnets plus address-less and IPv6-only fillers, with an optional fill burst so that full buckets with pending candidates occur; per-bucket and per-table /24 counts are checked after every operation; distinct = distinct hash of the operation/result log; an eighth of the IPv4 records carry an IPv4 address without a UDP port, another eighth IPv4 and IPv6 endpoints together",
     components_real: &["kbucket::KBucketsTable<NodeId, Enr>", "kbucket::filter::{IpTableFilter, IpBucketFilter}", "Discv5::new (filter wiring)", "enr records with real signatures"],
     components_stub: STUB_CLOCK,
     enumerated: None,
@@ -73,7 +73,7 @@ pub static C09: CheckSpec = CheckSpec {
     runs_thorough: 60_000_000,
     cap_quick_s: 60,
     cap_thorough_s: 900,
-    rule: "one run = one generated event order (poll / success with 0..6 returned peers that are new, duplicate, closer, farther or the target itself / failure / silence past the peer timeout / late success / answers for never-asked or unknown peers) against a real FindNodeQuery or PredicateQuery (direct) or a real QueryPool with 1-3 concurrent queries and a query timeout (pool), parallelism 1..5, k 0..20, followed by a fault-free drain phase with a step bound (liveness); non-trivial = at least one fault-like event fired (failure, late success, silence, answer for a non-outstanding peer); distinct = distinct hash of the event log; service-lookup: a real service with a scripted handler whose FINDNODEs are answered honestly, maliciously or with failures; Scenario 'full-stack': 2-5 complete honest Discv5 nodes (API, service, handler, tables) on the virtual network with drop/duplicate/delay/partition/restart faults and API calls (find_node incl. targets adjacent to a peer's id, send_ping, talk_req, find_node_designated_peer); every API future must return within a bound after the faults stop",
+    rule: "one run = one generated event order (poll / success with 0..6 returned peers that are new, duplicate, closer, farther or the target itself / failure / silence past the peer timeout / late success / answers for never-asked or unknown peers) against a real FindNodeQuery or PredicateQuery (direct) or a real QueryPool with 1-3 concurrent queries and a query timeout (pool), parallelism 1..5, k 0..20, followed by a fault-free drain phase with a step bound (liveness); non-trivial = at least one fault-like event fired (failure, late success, silence, answer for a non-outstanding peer); distinct = distinct hash of the event log; service-lookup: a real service with a scripted handler whose FINDNODEs are answered honestly, maliciously or with failures; Scenario 'full-stack': 2-5 complete honest Discv5 nodes (API, service, handler, tables) on the virtual network with drop/duplicate/delay/bit-flip/late-replay/partition/restart faults and API calls (find_node incl. targets adjacent to a peer's id, send_ping, talk_req, find_node_designated_peer); every API future must return within a bound after the faults stop; pool runs also check the query timeout itself: a poll that examined every query and had nothing to do must not leave a query in the pool whose clock (started at the latest at the first poll that certainly examined it) has run for the query timeout",
     components_real: REAL_QUERY,
     components_stub: &["OS monotonic clock (interposed)", "the service and its peers (the harness plays the answers)"],
     enumerated: None,
@@ -87,12 +87,13 @@ pub static C10: CheckSpec = CheckSpec {
         Scenario { name: "query-direct", weight: 8, run: worlds::query::run_direct },
         Scenario { name: "query-pool", weight: 4, run: worlds::query::run_pool },
         Scenario { name: "service-lookup", weight: 1, run: worlds::s_nodes::run_lookup },
+        Scenario { name: "full-stack", weight: 1, run: f_c10 },
     ],
     runs_quick: 600_000,
     runs_thorough: 60_000_000,
     cap_quick_s: 60,
     cap_thorough_s: 900,
-    rule: "same runs as C09 (different run indices are not shared: C10 draws its own); the final result of every query (into_result after Finished, or at pool Timeout) is checked: at most k distinct ids, strictly increasing XOR distance to the target (raw bytes), each asked and answered with a success, predicate results reported with a matching record or flagged initially, and if fewer than k without timeout every certainly-learned candidate was asked",
+    rule: "same runs as C09 (different run indices are not shared: C10 draws its own); the final result of every query (into_result after Finished, or at pool Timeout) is checked: at most k distinct ids, strictly increasing XOR distance to the target (raw bytes), each asked and answered with a success, predicate results reported with a matching record or flagged initially, and if fewer than k without timeout every certainly-learned candidate was asked; Scenario 'full-stack' (W-F, see C09): every find_node result of a complete node is checked at the API: distinct ids, not the local node, in increasing XOR distance to the target, at most 16, and each id belongs to a node that put a NODES response to the caller on the wire (plaintext read with the key log)",
     components_real: REAL_QUERY,
     components_stub: &["OS monotonic clock (interposed)", "the service and its peers (the harness plays the answers)"],
     enumerated: None,
@@ -121,16 +122,25 @@ const REAL_HANDLER: &[&str] = &["handler::Handler (send_request, handle_challeng
 const STUB_HANDLER: &[&str] = &["UDP sockets and the two socket I/O select loops (replaced by equivalent loops over the harness's virtual network)", "OS clock (interposed; follows tokio's paused clock)", "OS entropy (interposed getrandom: seeded PRNG)", "the service layer above the handler (the harness plays each handler's application: answers WhoAreYou queries and requests)"];
 
 fn f_c09(ctx: &mut Ctx) {
-    worlds::fworld::run(ctx, worlds::fworld::Which { c09: true, c11: false, c13: false, c19: false });
+    worlds::fworld::run(ctx, worlds::fworld::Which { c09: true, ..Default::default() });
+}
+fn f_c10(ctx: &mut Ctx) {
+    worlds::fworld::run(ctx, worlds::fworld::Which { c10: true, ..Default::default() });
 }
 fn f_c11(ctx: &mut Ctx) {
-    worlds::fworld::run(ctx, worlds::fworld::Which { c09: false, c11: true, c13: false, c19: false });
+    worlds::fworld::run(ctx, worlds::fworld::Which { c11: true, ..Default::default() });
 }
 fn f_c13(ctx: &mut Ctx) {
-    worlds::fworld::run(ctx, worlds::fworld::Which { c09: false, c11: false, c13: true, c19: false });
+    worlds::fworld::run(ctx, worlds::fworld::Which { c13: true, ..Default::default() });
+}
+fn f_c14(ctx: &mut Ctx) {
+    worlds::fworld::run(ctx, worlds::fworld::Which { c14: true, ..Default::default() });
 }
 fn f_c19(ctx: &mut Ctx) {
-    worlds::fworld::run(ctx, worlds::fworld::Which { c09: false, c11: false, c13: false, c19: true });
+    worlds::fworld::run(ctx, worlds::fworld::Which { c19: true, ..Default::default() });
+}
+fn f_c20(ctx: &mut Ctx) {
+    worlds::fworld::run(ctx, worlds::fworld::Which { c20: true, ..Default::default() });
 }
 fn c04_run(ctx: &mut Ctx) {
     worlds::h_traffic::run(ctx, worlds::h_traffic::Opts { c04: true, c13: false, c19: false, malicious: true });
@@ -147,7 +157,7 @@ pub static C04: CheckSpec = CheckSpec {
     level: "exploration",
     scenarios: &[Scenario { name: "handler-traffic", weight: 1, run: c04_run }],
     runs_quick: 40_000,
-    runs_thorough: 150_000,
+    runs_thorough: 2_000_000,
     cap_quick_s: 75,
     cap_thorough_s: 1200,
     rule: "one run = 2-4 real handlers on the virtual network, 1-12 concurrent requests (PING / FINDNODE with 1-3 response packets / TALK, contacts with and without record) submitted at chosen times, under a per-run fault profile (drop, duplicate, delay/reorder, partition, slow WHOAREYOU answers and responses, silent application, peer restart, injected undecryptable packet = session loss, clock jump); at a chosen instant all faults stop and the run continues for the liveness bound; non-trivial = at least one fault fired; distinct = distinct hash of the abstract event log (datagram kinds, faults, handler outputs, virtual times); malicious-peer actions (second WHOAREYOU, forged WHOAREYOU, random packets from unknown parties) are injected as well",
@@ -163,12 +173,13 @@ pub static C15: CheckSpec = CheckSpec {
     scenarios: &[
         Scenario { name: "session-ttl", weight: 2, run: worlds::h_session::run_ttl },
         Scenario { name: "session-capacity", weight: 1, run: worlds::h_session::run_capacity },
+        Scenario { name: "capacity-with-expiry", weight: 1, run: worlds::h_session::run_capacity_expiry },
     ],
     runs_quick: 30_000,
     runs_thorough: 900_000,
     cap_quick_s: 75,
     cap_thorough_s: 1200,
-    rule: "session-ttl: a victim with session_timeout in {2,5,30,120} s and 1-3 real peers; 4-17 sequential exchanges in either direction separated by idle gaps of 50 ms, timeout/2, timeout-0.7 s, timeout+1 ms, timeout+0.7 s, 2*timeout; every datagram the victim encrypts and every message it accepts is attributed to one of its sessions (key log) and that session's idle time must not exceed the timeout. session-capacity: capacity 1-5, 2-7 real peers, sequential exchanges in tape-chosen order and direction, then the victim pings every peer most-recently-used first: ranks below the capacity must be answered on the existing session, ranks at or above it must start with a random packet; non-trivial = an idle gap longer than the timeout occurred / more peers than capacity; distinct = distinct event-log hash",
+    rule: "session-ttl: a victim with session_timeout in {2,5,30,120} s and 1-3 real peers; 4-17 sequential exchanges in either direction separated by idle gaps of 50 ms, timeout/2, timeout-0.7 s, timeout+1 ms, timeout+0.7 s, 2*timeout; every datagram the victim encrypts and every message it accepts is attributed to one of its sessions (key log) and that session's idle time must not exceed the timeout. session-capacity: capacity 1-5, 2-7 real peers, sequential exchanges in tape-chosen order and direction, then the victim pings every peer most-recently-used first: ranks below the capacity must be answered on the existing session, ranks at or above it must start with a random packet; non-trivial = an idle gap longer than the timeout occurred / more peers than capacity; distinct = distinct event-log hash; capacity-with-expiry: capacity 2-4, session_timeout 20/60 s, the cache is filled, one peer's session is left to expire (the peer may crash; the victim may look the expired session up once more) while the others stay in use, then a new peer arrives: the probe demands that every session used within the timeout is still held",
     components_real: REAL_HANDLER,
     components_stub: STUB_HANDLER,
     enumerated: None,
@@ -180,10 +191,10 @@ pub static C19: CheckSpec = CheckSpec {
     level: "exploration",
     scenarios: &[Scenario { name: "handler-traffic", weight: 4, run: c19_run }, Scenario { name: "full-stack", weight: 1, run: f_c19 }],
     runs_quick: 40_000,
-    runs_thorough: 150_000,
+    runs_thorough: 2_000_000,
     cap_quick_s: 75,
     cap_thorough_s: 1200,
-    rule: "same world and fault profiles as C04 plus forged WHOAREYOUs that force re-keying; every emitted Message/Handshake datagram is attributed to the session key (H6 key log) that decrypts it and (emitter, key, 12-byte nonce) must identify one byte string; all id-nonces of a node's WHOAREYOUs must differ; non-trivial = at least one fault fired; distinct = distinct event-log hash; Scenario 'full-stack': 2-5 complete honest Discv5 nodes (API, service, handler, tables) on the virtual network with drop/duplicate/delay/partition/restart faults and API calls (find_node incl. targets adjacent to a peer's id, send_ping, talk_req, find_node_designated_peer); the same nonce-uniqueness oracle over all nodes' traffic",
+    rule: "same world and fault profiles as C04 plus forged WHOAREYOUs that force re-keying; every emitted Message/Handshake datagram is attributed to the session key (H6 key log) that decrypts it and (emitter, key, 12-byte nonce) must identify one byte string; all id-nonces of a node's WHOAREYOUs must differ; non-trivial = at least one fault fired; distinct = distinct event-log hash; Scenario 'full-stack': 2-5 complete honest Discv5 nodes (API, service, handler, tables) on the virtual network with drop/duplicate/delay/bit-flip/late-replay/partition/restart faults and API calls (find_node incl. targets adjacent to a peer's id, send_ping, talk_req, find_node_designated_peer); the same nonce-uniqueness oracle over all nodes' traffic",
     components_real: REAL_HANDLER,
     components_stub: STUB_HANDLER,
     enumerated: None,
@@ -201,7 +212,7 @@ pub static C11: CheckSpec = CheckSpec {
     runs_thorough: 1_500_000,
     cap_quick_s: 75,
     cap_thorough_s: 1200,
-    rule: "one run = a real service with 1-10 table peers out of a universe of 10-40 real signed records, one lookup whose target is random, a peer's id, a peer's id with one of the three lowest bits flipped (request lists containing 0) or the local id; each FINDNODE the lookup emits is answered by an honest responder (all records of its neighbourhood at the requested distances, own record iff 0 requested, 1-4 packets, consistent total, sometimes a late extra packet) or a malicious one (off-distance records, the requester's own record, duplicates, totals 0..2^64-1 with up to 20 packets, more packets than announced, a single foreign record) or by RequestFailed; accepted records are observed as Discovered events packet by packet, the ban list is read after every response; non-trivial = the lookup asked at least one peer; distinct = distinct event-log hash; Scenario 'full-stack': 2-5 complete honest Discv5 nodes (API, service, handler, tables) on the virtual network with drop/duplicate/delay/partition/restart faults and API calls (find_node incl. targets adjacent to a peer's id, send_ping, talk_req, find_node_designated_peer); the ban list must stay empty (all peers are honest)",
+    rule: "one run = a real service with 1-10 table peers out of a universe of 10-40 real signed records, one lookup whose target is random, a peer's id, a peer's id with one of the three lowest bits flipped (request lists containing 0) or the local id; each FINDNODE the lookup emits is answered by an honest responder (all records of its neighbourhood at the requested distances, own record iff 0 requested, 1-4 packets, consistent total, sometimes a late extra packet) or a malicious one (off-distance records, the requester's own record, duplicates, totals 0..2^64-1 with up to 20 packets, more packets than announced, a single foreign record) or by RequestFailed; accepted records are observed as Discovered events packet by packet, the ban list is read after every response; non-trivial = the lookup asked at least one peer; distinct = distinct event-log hash; Scenario 'full-stack': 2-5 complete honest Discv5 nodes (API, service, handler, tables) on the virtual network with drop/duplicate/delay/bit-flip/late-replay/partition/restart faults and API calls (find_node incl. targets adjacent to a peer's id, send_ping, talk_req, find_node_designated_peer); the ban list must stay empty (all peers are honest)",
     components_real: REAL_SERVICE,
     components_stub: STUB_SERVICE,
     enumerated: None,
@@ -219,7 +230,7 @@ pub static C12: CheckSpec = CheckSpec {
     runs_thorough: 2_000_000,
     cap_quick_s: 75,
     cap_thorough_s: 1200,
-    rule: "table-policy (real service, scripted handler): 10-70 steps over a universe of 6-26 real signed records: Established (incoming/outgoing, record shapes v4 / none / v6-only / both / v4-mapped v6 / v4+tcp, sequence number equal or higher than known), add_enr (lower/equal/higher seq), remove_node, disconnect_node, lookups whose FINDNODEs are answered with records of any shape and seq lower/equal/higher (discovered records), PONGs advertising higher seqs, request failures, idle time; IP mode v4 / v6 / dual stack; table filter none / no-tcp / odd-seq; the routing table is read after every step. identity-adversary (real handlers, W-H): the C01 scenario, which also lets the adversary handshake under its own id with a record advertising its real source, no address, or somebody else's address and demands that an incoming Established carries a record whose UDP address equals the observed source; non-trivial = the table was non-empty at the end / an attack datagram was injected; distinct = distinct event-log hash",
+    rule: "table-policy (real service, scripted handler): 10-70 steps over a universe of 6-26 real signed records: Established (incoming/outgoing, record shapes v4 / none / v6-only / both / v4-mapped v6 / v4+tcp, sequence number equal or higher than known), add_enr (lower/equal/higher seq), remove_node, disconnect_node, lookups whose FINDNODEs are answered with records of any shape and seq lower/equal/higher (discovered records), PONGs advertising higher seqs, request failures, idle time; IP mode v4 / v6 / dual stack; table filter none / no-tcp / odd-seq; the routing table is read after every step. identity-adversary (real handlers, W-H): the C01 scenario, which also lets the adversary handshake under its own id with a record advertising its real source, no address, or somebody else's address and demands that an incoming Established carries a record whose UDP address equals the observed source; non-trivial = the table was non-empty at the end / an attack datagram was injected; distinct = distinct event-log hash; record shape 6 = IPv4 address without UDP port (not contactable over IPv4); identity scenario: see C01 (a peer that presents another identity's record in answer to the handler's own record request must not make that identity Established)",
     components_real: REAL_SERVICE,
     components_stub: STUB_SERVICE,
     enumerated: None,
@@ -229,12 +240,12 @@ pub static C12: CheckSpec = CheckSpec {
 pub static C14: CheckSpec = CheckSpec {
     id: "C14",
     level: "exploration",
-    scenarios: &[Scenario { name: "serve-findnode-ping", weight: 1, run: worlds::s_serve::run_c14 }],
+    scenarios: &[Scenario { name: "serve-findnode-ping", weight: 6, run: worlds::s_serve::run_c14 }, Scenario { name: "full-stack", weight: 1, run: f_c14 }],
     runs_quick: 12_000,
     runs_thorough: 600_000,
     cap_quick_s: 75,
     cap_thorough_s: 1200,
-    rule: "one run = a real service whose table holds 2-61 real signed records (padded to the 300-byte limit in two of three runs), max_nodes_response in {1,4,16,32,48}; 3-14 requests: FINDNODE with 0-6 distances (0, 256..249, random; duplicates, unsorted), request ids of 0-8 bytes, requesters that are table entries or strangers, PINGs from ports incl. 0; the HandlerIn::Response values are compared with the table read back through the public API and every packet is encrypted (AES-GCM) and encoded with the real codec to measure its wire size; every run is non-trivial; distinct = distinct event-log hash",
+    rule: "one run = a real service whose table holds 2-61 real signed records (padded to the 300-byte limit in two of three runs), max_nodes_response in {1,4,16,32,48}; 3-14 requests: FINDNODE with 0-6 distances (0, 256..249, random; duplicates, unsorted), request ids of 0-8 bytes, requesters that are table entries or strangers, PINGs from ports incl. 0; the HandlerIn::Response values are compared with the table read back through the public API and every packet is encrypted (AES-GCM) and encoded with the real codec to measure its wire size; every run is non-trivial; distinct = distinct event-log hash; Scenario 'full-stack' (W-F, see C09): every NODES and PONG a complete node puts on the wire is decrypted with the key log: records only at the distances of the FINDNODE it answers (matched by request id), never the requester's record, only entries of the sender's table (or its own record), total >= 1; PONG reports exactly the requester's address and the sender's current sequence number",
     components_real: REAL_SERVICE,
     components_stub: STUB_SERVICE,
     enumerated: None,
@@ -259,12 +270,12 @@ pub static C17: CheckSpec = CheckSpec {
 pub static C20: CheckSpec = CheckSpec {
     id: "C20",
     level: "exploration",
-    scenarios: &[Scenario { name: "talk", weight: 1, run: worlds::s_serve::run_c20 }],
+    scenarios: &[Scenario { name: "talk", weight: 8, run: worlds::s_serve::run_c20 }, Scenario { name: "full-stack", weight: 1, run: f_c20 }],
     runs_quick: 40_000,
     runs_thorough: 2_000_000,
     cap_quick_s: 75,
     cap_thorough_s: 1200,
-    rule: "one run = 1-150 TALKREQs from 5 peers delivered to a real service; the application (harness) takes the TalkRequest objects from the event stream and, in tape order, responds, drops or holds them; stream modes: drained, never drained (fills up), receiver dropped; in one run of three the service is shut down at a chosen point and the (scripted) handler goes away with it, after which held requests are responded to or dropped; while running every TALKREQ must get exactly one TALKRESP with its id to its address carrying the application's payload or an empty one; after shutdown respond() must return an error and nothing may panic; every run is non-trivial; distinct = distinct event-log hash",
+    rule: "one run = 1-150 TALKREQs from 5 peers delivered to a real service; the application (harness) takes the TalkRequest objects from the event stream and, in tape order, responds, drops or holds them; stream modes: drained, never drained (fills up), receiver dropped; in one run of three the service is shut down at a chosen point and the (scripted) handler goes away with it, after which held requests are responded to or dropped; while running every TALKREQ must get exactly one TALKRESP with its id to its address carrying the application's payload or an empty one; after shutdown respond() must return an error and nothing may panic; every run is non-trivial; distinct = distinct event-log hash; the application may sit on requests for 50 ms .. 10 min before answering or dropping them; Scenario 'full-stack' (W-F, see C09): the applications of complete nodes answer or drop every TalkRequest event at once; per (node, requester, request id) the TALKRESP packets on the wire (decrypted with the key log) never outnumber the events, carry a payload the application produced, and equal the events in number at the end unless the node restarted or a handler dropped a response for lack of a session",
     components_real: REAL_SERVICE,
     components_stub: STUB_SERVICE,
     enumerated: None,
@@ -276,10 +287,10 @@ pub static C13: CheckSpec = CheckSpec {
     level: "exploration",
     scenarios: &[Scenario { name: "handler-traffic", weight: 6, run: c13_run }, Scenario { name: "full-stack", weight: 1, run: f_c13 }, Scenario { name: "banned-peer-bypass", weight: 1, run: worlds::h_traffic::run_bypass }],
     runs_quick: 40_000,
-    runs_thorough: 150_000,
+    runs_thorough: 2_000_000,
     cap_quick_s: 75,
     cap_thorough_s: 1200,
-    rule: "same world and fault profiles as C04 (packet filter on in half of the handlers) plus malicious peers (second WHOAREYOU, forged WHOAREYOU, random packets from unknown parties whose challenge is never answered); the shared exemption map is compared with the harness's ledger after every handler output (upper bound) and must be empty at quiescence; non-trivial = at least one fault fired; distinct = distinct event-log hash; banned-peer-bypass: victim with the packet filter on, the peer's IP banned: the victim's own requests to it must be answered (exemption) and the peer's unsolicited requests must leave no trace; Scenario 'full-stack': 2-5 complete honest Discv5 nodes (API, service, handler, tables) on the virtual network with drop/duplicate/delay/partition/restart faults and API calls (find_node incl. targets adjacent to a peer's id, send_ping, talk_req, find_node_designated_peer); all exemption maps must be empty once every API call returned",
+    rule: "same world and fault profiles as C04 (packet filter on in half of the handlers) plus malicious peers (second WHOAREYOU, forged WHOAREYOU, random packets from unknown parties whose challenge is never answered); the shared exemption map is compared with the harness's ledger after every handler output (upper bound) and must be empty at quiescence; non-trivial = at least one fault fired; distinct = distinct event-log hash; banned-peer-bypass: victim with the packet filter on, the peer's IP banned: the victim's own requests to it must be answered (exemption) and the peer's unsolicited requests must leave no trace; Scenario 'full-stack': 2-5 complete honest Discv5 nodes (API, service, handler, tables) on the virtual network with drop/duplicate/delay/bit-flip/late-replay/partition/restart faults and API calls (find_node incl. targets adjacent to a peer's id, send_ping, talk_req, find_node_designated_peer); all exemption maps must be empty once every API call returned",
     components_real: REAL_HANDLER,
     components_stub: STUB_HANDLER,
     enumerated: None,
@@ -294,7 +305,7 @@ pub static C01: CheckSpec = CheckSpec {
     runs_thorough: 600_000,
     cap_quick_s: 75,
     cap_thorough_s: 1200,
-    rule: "one run = a victim handler, 1-2 genuine peers (one possibly not running) and an adversary without any honest secret key; the victim's application knows the genuine record, nothing, or a stale record; 1-3 attacks = random packet claiming a genuine id from the attacker's or the genuine (spoofed) address, then a handshake answering the victim's WHOAREYOU with record in {own (seq below/equal/above), genuine (replayed), none, own with the genuine address}, signer in {attacker key, garbage, replayed genuine signature}, valid or invalid ephemeral key; interleaved with genuine requests in both directions; every identity effect (Established, Request, Response, UnverifiableEnr, recipient-side session keys) must be justified by a delivered handshake whose id-signature verifies under the claimed id's public key over one of the node's own WHOAREYOUs to that address, or by the node's own dial; non-trivial = an attack datagram was injected; distinct = distinct event-log hash",
+    rule: "one run = a victim handler, 1-2 genuine peers (one possibly not running) and an adversary without any honest secret key; the victim's application knows the genuine record, nothing, or a stale record; 1-3 attacks = random packet claiming a genuine id from the attacker's or the genuine (spoofed) address, then a handshake answering the victim's WHOAREYOU with record in {own (seq below/equal/above), genuine (replayed), none, own with the genuine address}, signer in {attacker key, garbage, replayed genuine signature}, valid or invalid ephemeral key; interleaved with genuine requests in both directions; every identity effect (Established, Request, Response, UnverifiableEnr, recipient-side session keys) must be justified by a delivered handshake whose id-signature verifies under the claimed id's public key over one of the node's own WHOAREYOUs to that address, or by the node's own dial; non-trivial = an attack datagram was injected; distinct = distinct event-log hash; in a third of the runs one genuine peer lies about who it is after an honest handshake: asked for its record (the FINDNODE [0] a handler sends by itself to a contact dialled without a record) it presents a validly signed record of another identity (another node's genuine record, one without address, a second identity at its own address)",
     components_real: REAL_HANDLER,
     components_stub: STUB_HANDLER,
     enumerated: None,
@@ -312,7 +323,7 @@ pub static C02: CheckSpec = CheckSpec {
     runs_thorough: 2 * worlds::h_tamper::ENUM_SPACE + 200_000,
     cap_quick_s: 75,
     cap_thorough_s: 1500,
-    rule: "enumerated half: 6 base exchanges (fresh recipient session, initiator with multi-packet NODES, record-less contact awaiting the record, re-key after session loss, simultaneous dial with a third node, NODES in 2 packets then reverse PING) x datagram index 0..9 x mutation index j (every single-bit flip, every truncation length, a 1-byte insertion at every offset, 1..8 junk bytes appended to the auth-data with the masked size field patched to cover them; j beyond that is an empty case that ends at once): 198480 cases, all executed by the thorough tier, a fixed-stride sample by the quick tier; exactly one genuine datagram is replaced by its mutation per run. explored half: tape-chosen base plus extra requests, 5-40 % of the datagrams mutated by bit flip / truncation / insertion / auth-data growth with patched size field / header-body splice with an earlier datagram / misdelivery / re-masking for another node / spoofed source, with jitter and duplicates, sometimes delivering the genuine datagram as well; non-trivial = at least one mutated datagram was delivered; distinct = distinct event-log hash",
+    rule: "enumerated half: 6 base exchanges (fresh recipient session, initiator with multi-packet NODES, record-less contact awaiting the record, re-key after session loss, simultaneous dial with a third node, NODES in 2 packets then reverse PING) x datagram index 0..9 x mutation index j (every single-bit flip, every truncation length, a 1-byte insertion at every offset, 1..8 junk bytes appended to the auth-data with the masked size field patched to cover them; j beyond that is an empty case that ends at once): 198480 cases, all executed by the thorough tier, a fixed-stride sample by the quick tier; exactly one genuine datagram is replaced by its mutation per run. explored half: tape-chosen base plus extra requests, 5-40 % of the datagrams mutated by bit flip / truncation / insertion / auth-data growth with patched size field / header-body splice with an earlier datagram / misdelivery / re-masking for another node / spoofed source, with jitter and duplicates, sometimes delivering the genuine datagram as well; non-trivial = at least one mutated datagram was delivered; distinct = distinct event-log hash; exploration also lets a party with keys of its own answer a node's WHOAREYOU in the challenged peer's name from the peer's address (own/peer's/no record, lower/equal/higher seq): nothing it sends may be delivered as the peer's",
     components_real: REAL_HANDLER,
     components_stub: STUB_HANDLER,
     enumerated: Some(("tamper-enumerated", worlds::h_tamper::ENUM_SPACE)),
@@ -330,7 +341,7 @@ pub static C03: CheckSpec = CheckSpec {
     runs_thorough: 2 * worlds::h_replay::ENUM_SPACE + 600_000,
     cap_quick_s: 75,
     cap_thorough_s: 1200,
-    rule: "enumerated half: for each of 7 base exchanges (X dials V with/without V knowing X's record, V dials X with/without record, re-key after session loss, simultaneous dial plus a third node, X dials V with a record that advertises another address than it sends from) every recorded handshake/WHOAREYOU datagram (index 0..7) x every later point (after the 1st..12th emitted datagram, after all challenges expired, while a later exchange runs) x {original source, other address, towards another node} is re-injected, one per run: 2352 cases, all executed in both tiers (runs whose datagram index does not exist inject nothing and are trivial); explored half: tape-chosen base, 1-4 replays, jitter and duplicates, extra requests; non-trivial = a replay was injected; distinct = distinct event-log hash",
+    rule: "enumerated half: for each of 7 base exchanges (X dials V with/without V knowing X's record, V dials X with/without record, re-key after session loss, simultaneous dial plus a third node, X dials V with a record that advertises another address than it sends from) every recorded handshake/WHOAREYOU datagram (index 0..7) x every later point (after the 1st..12th emitted datagram, after all challenges expired, while a later exchange runs) x {original source, other address, towards another node} is re-injected, one per run: 2352 cases, all executed in both tiers (runs whose datagram index does not exist inject nothing and are trivial); explored half: tape-chosen base, 1-4 replays, jitter and duplicates, extra requests; non-trivial = a replay was injected; distinct = distinct event-log hash; exploration also holds genuine handshakes back until around or past the expiry of the challenge they answer (timeout-300 .. timeout+1200 ms) while further undecryptable packets in the sender's name reach the challenger",
     components_real: REAL_HANDLER,
     components_stub: STUB_HANDLER,
     enumerated: Some(("replay-enumerated", worlds::h_replay::ENUM_SPACE)),
